@@ -24,7 +24,7 @@ CFG = {
         "Trusted: Coq kernel + vm_compute; hand model TexModel.v / contract C11_Spec.v / UTF-8 model C11_Utf8.v tied by "
         "the correspondence; bytes.Buffer of the installed Go is an oracle observed, not proved; the capacity a "
         "constructor ends with is read from Cap() and fed to the model as input. Not compared (by the property): Cap(), "
-        "Unread* directly after Grow. Left out: ErrTooLarge (allocation failure on absurd sizes), a writer returning a "
+        "Unread* directly after Grow. Panics are compared by the CLASS of the panic value (ErrTooLarge / negative count / truncation / errNegativeRead / invalid Write count / index-or-slice runtime error / other runtime error / other) between tex.Buffer, bytes.Buffer and the model. ErrTooLarge: Grow beyond max_alloc (2^48, a parameter of the model; the harness only generates sizes >= 2^49 or small ones) panics with ErrTooLarge on both sides (c11_grow_too_large); sizes between the worst-case-allocatable bound and max_alloc depend on the memory actually available and are excluded by op_ok through the capacity bound k. Left out: a writer returning a "
         "negative count and a reader delivering more than it was offered (excluded by op_ok). "
         "ReWrite addresses the storage from its start; the contract fixes the addressing only while the consumed "
         "prefix is known (no write/Grow/ReadFrom since a read moved the offset) - ReWrite steps outside that are "
